@@ -17,7 +17,7 @@ HERE = os.path.dirname(os.path.abspath(__file__))
 PRELUDE = r'''
 #![allow(unused_imports, unused_variables, dead_code, unused_mut, unused_parens)]
 use vstd::prelude::*;
-use std::collections::{HashMap, HashSet};
+use std::collections::{HashMap, HashSet, BTreeMap, BTreeSet, VecDeque};
 verus! {
 global size_of usize == 8;
 #[derive(Clone, Copy, PartialEq, Eq, Hash, Structural)]
